@@ -47,6 +47,8 @@ type dsShape struct {
 	Benches int    // 1..3 of A, B/k=1, B/k=2-4
 	Units   string // "ns", "ns+B", "ns+x" (x/op with assume=exact), "ns+alt" (second unit alternates between lines), "ns|sec" / "sec|ns" (one file writes ns/op, the other sec/op), "ns+Bnew" (the first benchmark reports B/op in the second file only)
 	Reps    int
+	// RepsNew: repetitions in the files after the first, if they differ from Reps (cells of unequal sizes)
+	RepsNew int    `json:",omitempty"`
 	Pattern string // "shifted", "equal", "zero", "negative"
 	Missing bool   // the last benchmark is missing from the second file
 	// MissingFirst: the first benchmark is missing from the first file, so a
@@ -95,7 +97,11 @@ func (s dsShape) build() dataset {
 		}
 		for bi, cfg := range cfgs {
 			blk := dsBlock{Cfg: cfg}
-			for rep := 0; rep < s.Reps; rep++ {
+			reps := s.Reps
+			if fi > 0 && s.RepsNew > 0 {
+				reps = s.RepsNew
+			}
+			for rep := 0; rep < reps; rep++ {
 				for ni := 0; ni < s.Benches; ni++ {
 					if s.Missing && fi == 1 && ni == s.Benches-1 && s.Benches > 1 {
 						continue
@@ -412,6 +418,9 @@ func c14Shapes(thorough bool) []dsShape {
 		{Files: 2, Blocks: "ab", Benches: 2, Units: "sec|ns", Reps: 2, Pattern: "shifted"},
 		{Files: 2, Blocks: "a", Benches: 2, Units: "ns+Bnew", Reps: 5, Pattern: "shifted"},
 		{Files: 2, Blocks: "ab", Benches: 3, Units: "ns+Bnew", Reps: 2, Pattern: "shifted"},
+		{Files: 2, Blocks: "a", Benches: 2, Units: "ns", Reps: 5, RepsNew: 3, Pattern: "shifted"},
+		{Files: 2, Blocks: "ab", Benches: 3, Units: "ns+B", Reps: 2, RepsNew: 5, Pattern: "shifted"},
+		{Files: 3, Blocks: "a", Benches: 1, Units: "ns", Reps: 4, RepsNew: 7, Pattern: "negative"},
 		{Files: 2, Blocks: "note-dropped", Benches: 2, Units: "ns", Reps: 2, Pattern: "shifted"},
 		{Files: 1, Blocks: "note-late", Benches: 2, Units: "ns+B", Reps: 2, Pattern: "shifted"},
 		{Files: 2, Blocks: "two-dropped", Benches: 1, Units: "ns", Reps: 5, Pattern: "shifted"},
@@ -435,7 +444,7 @@ func c14Shapes(thorough bool) []dsShape {
 									if (reps == 1) != (pat == "equal" || pat == "zero") && units != "ns" {
 										continue
 									}
-									all = append(all, dsShape{files, labeled, blocks, benches, units, reps, pat, missing, missing && reps == 5, false})
+									all = append(all, dsShape{Files: files, Labeled: labeled, Blocks: blocks, Benches: benches, Units: units, Reps: reps, Pattern: pat, Missing: missing, MissingFirst: missing && reps == 5})
 								}
 							}
 						}
